@@ -183,15 +183,19 @@ def c15(run):
     r_replay.run_own(run, P)
     r_replay.run_rb(run, P)
     r_replay.run_must(run, P)
+    from rules import r_ssn
+    r_ssn.run(run, P)
     run.min_instances('R-RANGE', 4)
     run.min_instances('R-REPLAY-OWN', 8)
     run.min_instances('R-REPLAY-RB', 5)
-    run.assumptions = ASSUME_COMMON + ["acceptance over histories and sender-sequence reuse across restarts (next_seq / ssn_freq arithmetic) are NOT decided"]
+    run.assumptions = ASSUME_COMMON + ["acceptance over histories and the numeric side of the sender-sequence watermark (ssn_freq >= 1, start-up rounding) are NOT decided"]
     return run.finish(
         "Anti-replay state discipline: shift counts derived from sequence numbers / CBOR are proven below the operand width (R-RANGE); the "
         "replay fields are written only by the window functions and the constructor (R-REPLAY-OWN); everything the validation modifies is "
         "snapshotted and restored on every path of the roll-back, and every failure exit between validation and authentication rolls back "
-        "(R-REPLAY-RB); every accepted request passed a successful validation (R-REPLAY-MUST). Seven genuine defects of the current tree are "
+        "(R-REPLAY-RB); every accepted request passed a successful validation (R-REPLAY-MUST); the sender sequence number is only stepped by +1, "
+        "advanced exactly once between its use as partial IV and the successful return, and compared with the persisted watermark such that the "
+        "skipping arm implies used+1 <= next_seq while the other arm advances next_seq and hands it to the save callback (R-SSN-ORDER). Seven genuine defects of the current tree are "
         "listed in known_findings.txt and re-observed on every run.")
 
 
